@@ -360,6 +360,46 @@ def projectOut (sqrt : α → α) (a b : V4 α) : V4 α :=
   add a (scale n (-(dot n a)))
 end V4
 
+/-! ## `numerical.Vec` (`[]float64` of any length, `numerical/vecs.go`)
+
+Vectors as lists.  `normSquared scale distSquared norm dist normalize zeros at len` are tied to the definitions
+REGENERATED from the source by `Lemmas/KernelsTiePoly.lean`; `add sub dot projectOut` (which panic on a length
+mismatch in Go — outside the translator's subset) are hand-written and compared by the `vec` kinds only. -/
+
+namespace VecN
+variable [Add α] [Sub α] [Mul α] [Div α] [NatCast α]
+
+/-- `Vec.NormSquared`: `res += x*x` starting from 0. -/
+def normSquared (v : List α) : α := v.foldl (fun r x => r + x * x) ((0 : Nat) : α)
+/-- `Vec.Scale`. -/
+def scale (v : List α) (s : α) : List α := v.map (· * s)
+/-- `Vec.DistSquared`: `sum += (x − v1[i])²` over the positions of `v` (Go panics when `v1` is shorter). -/
+def distSquared (v w : List α) : α :=
+  (v.zip w).foldl (fun s xy => s + (xy.1 - xy.2) * (xy.1 - xy.2)) ((0 : Nat) : α)
+/-- `Vec.Norm`. -/
+def norm (sqrt : α → α) (v : List α) : α := sqrt (normSquared v)
+/-- `Vec.Dist`. -/
+def dist (sqrt : α → α) (v w : List α) : α := sqrt (distSquared v w)
+/-- `Vec.Normalize`: `v.Scale(1 / v.Norm())`. -/
+def normalize (sqrt : α → α) (v : List α) : List α := scale v (((1 : Nat) : α) / norm sqrt v)
+/-- `Vec.Zeros`. -/
+def zeros (v : List α) : List α := List.replicate v.length ((0 : Nat) : α)
+/-- `Vec.Add` / `Vec.Sub` (equal lengths; otherwise Go panics = `none`). -/
+def add (v w : List α) : Option (List α) :=
+  if v.length = w.length then some (List.zipWith (· + ·) v w) else none
+def sub (v w : List α) : Option (List α) :=
+  if v.length = w.length then some (List.zipWith (· - ·) v w) else none
+/-- `Vec.Dot`: `res += x*y` starting from 0. -/
+def dot (v w : List α) : Option α :=
+  if v.length = w.length then some ((v.zip w).foldl (fun r xy => r + xy.1 * xy.2) ((0 : Nat) : α)) else none
+/-- `Vec.ProjectOut`: `v.Sub(normed.Scale(normed.Dot(v)))` with `normed = v1.Normalize()`. -/
+def projectOut (sqrt : α → α) (v w : List α) : Option (List α) :=
+  let n := normalize sqrt w
+  match dot n v with
+  | none => none
+  | some d => sub v (scale n d)
+end VecN
+
 /-! ## Polynomials as coefficient lists `[a0, a1, …]` (`numerical.Polynomial`) -/
 
 namespace Poly
@@ -427,6 +467,24 @@ def mul (p q : List α) : List α :=
   | [], _ => []
   | _, [] => []
   | p, q => mulAux p q
+
+/-- Inner loop of `Polynomial.Mul` as written: `for j, y := range p1 { res[i+j] += x*y }` (from position `j`). -/
+def mulRow (x : α) (i : Nat) : List α → Nat → List α → List α
+  | [], _, res => res
+  | y :: ys, j, res => mulRow x i ys (j + 1) (res.set (i + j) (res.getD (i + j) ((0 : Nat) : α) + x * y))
+
+/-- Outer loop of `Polynomial.Mul`: `for i, x := range p { … }` (from position `i`). -/
+def mulRows (q : List α) : List α → Nat → List α → List α
+  | [], _, res => res
+  | x :: xs, i, res => mulRows q xs (i + 1) (mulRow x i q 0 res)
+
+/-- `Polynomial.Mul` with the additions in the order of the Go double loop (the bit-mode model; proved equal to
+`mul` over every commutative ring: `poly_mul_loop_eq`). -/
+def mulLoop (p q : List α) : List α :=
+  match p, q with
+  | [], _ => []
+  | _, [] => []
+  | p, q => mulRows q p 0 (List.replicate (p.length + q.length - 1) ((0 : Nat) : α))
 
 /-- The loop of `divideRoot` (synthetic division from the top coefficient down):
 returns the quotient and the final `temp[0]`, which is `p(r)`. -/
